@@ -194,7 +194,9 @@ Definition edge_update (shr : bool) (s : st) (i : nat) (old new : A) : st :=
 (* kind = true: SvmProblem (equality constraint), false: BoxConstrainedProblem *)
 Definition smo_step (kind shr : bool) (s : st) (i j : nat) : st :=
   let s1 := if kind then svm_update s i j else box_update s i j in
-  edge_update shr (edge_update shr s1 i (alpha s i) (alpha s1 i)) j (alpha s j) (alpha s1 j).
+  let s2 := edge_update shr s1 i (alpha s i) (alpha s1 i) in
+  if i =? j then s2     (* a single-variable step must not be accounted for twice *)
+  else edge_update shr s2 j (alpha s j) (alpha s1 j).
 
 (* getMaxKKTViolations / checkKKT loops over a < m *)
 Fixpoint largest_up (s : st) (m : nat) : A :=
